@@ -189,6 +189,73 @@ theorem typesetState3_member (mod : String) (name nm : Name) (ts : List String) 
   rw [get_put, if_neg (by intro h; injection h with _ h2; exact hne' h2),
     defineMembers3_get_member mod nm ts 0 _ j t hnd ht, Nat.zero_add]
 
+/-- `instantiate` of a type-set file by a module loader below the global loader when the DEPENDENCY loader is the context's
+    loader: the members and the type set are defined in the dependency loader, the module loader keeps its placeholder
+    (which is what it answers) -/
+theorem instantiate_typeset_dep (cfg : Cfg) (mod : String) (hv : cfg.via = .d) (hflat : cfg.flat = false)
+    (hmods : cfg.mods.contains mod = true) (hmne : mod ≠ "")
+    (name nm : Name) (ts : List String) (p : Path) (ps : List Path) (s0 : St) (k : Nat)
+    (hk : 3 * (nm.length + 1) + ts.length ≤ k)
+    (hb : bodyAt cfg.tree p = some (.typ .typeset nm ts)) (hkey : keyOf nm = keyOf name)
+    (hhead : (keyOf nm).head? = some mod)
+    (hgetm : s0.get (.m mod) (keyOf name) = none) (hgetg : s0.get .g (keyOf name) = some none)
+    (hgetd : s0.get .d (keyOf name) = none)
+    (hhg : MemHyp cfg .g nm ((s0.put (.m mod) (keyOf name) none).addRead p) ts)
+    (hhm : MemHyp cfg (.m mod) nm ((s0.put (.m mod) (keyOf name) none).addRead p) ts)
+    (hfreshg : ∀ t ∈ ts, s0.get .g (keyOf (nm ++ [t])) = none)
+    (hfreshm : ∀ t ∈ ts, s0.get (.m mod) (keyOf (nm ++ [t])) = none)
+    (hfreshd : ∀ t ∈ ts, s0.get .d (keyOf (nm ++ [t])) = none) :
+    instantiate (k+9) cfg (.m mod) name (p :: ps) s0 = .ok (some none) (typesetState3 mod name nm ts p s0) := by
+  have hgm : ∀ k0 k1 : Key, (Lid.g, k0) ≠ (Lid.m mod, k1) := by intro _ _ h; cases h
+  have hdm : ∀ k0 k1 : Key, (Lid.d, k0) ≠ (Lid.m mod, k1) := by intro _ _ h; cases h
+  have hne' : ∀ t, keyOf (nm ++ [t]) ≠ keyOf name := by
+    intro t h2
+    rw [← hkey] at h2
+    exact keyOf_ne_of_length (by simp) h2
+  let s1 := (s0.put (.m mod) (keyOf name) none).addRead p
+  have hig0 : MemInv .g nm s1 s1 ts := by
+    refine ⟨?_, fun _ h => h, ?_⟩
+    · show ((s0.put (.m mod) _ none).addRead p).get .g (keyOf nm) = _
+      rw [hkey, get_addRead, get_put, if_neg (hgm _ _)]; exact hgetg
+    · intro t ht
+      show ((s0.put (.m mod) _ none).addRead p).get .g _ = none
+      rw [get_addRead, get_put, if_neg (hgm _ _)]
+      exact hfreshg t ht
+  have him0 : MemInv (.m mod) nm s1 s1 ts := by
+    refine ⟨?_, fun _ h => h, ?_⟩
+    · show ((s0.put (.m mod) _ none).addRead p).get (.m mod) (keyOf nm) = _
+      rw [hkey, get_addRead, get_put, if_pos rfl]
+    · intro t ht
+      show ((s0.put (.m mod) _ none).addRead p).get (.m mod) _ = none
+      rw [get_addRead, get_put, if_neg (by intro h; injection h with _ h2; exact hne' t h2)]
+      exact hfreshm t ht
+  have hdf0 : ∀ t ∈ ts, s1.get .d (keyOf (nm ++ [t])) = none := by
+    intro t ht
+    show ((s0.put (.m mod) _ none).addRead p).get .d _ = none
+    rw [get_addRead, get_put, if_neg (hdm _ _)]
+    exact hfreshd t ht
+  have hres := resolveTS_dep cfg mod hv hflat hmods hmne nm hhead s1 ts 0 s1 k hk hhg hhm hig0 him0 hdf0
+  have hdkn : (defineMembers3 mod nm ts 0 s1).get .d (keyOf name) = none := by
+    rw [defineMembers3_get_other mod nm .d (keyOf name) ts 0 s1 (fun t _ h => hne' t h.symm)]
+    show ((s0.put (.m mod) _ none).addRead p).get .d _ = none
+    rw [get_addRead, get_put, if_neg (hdm _ _)]
+    exact hgetd
+  have hmkn : (typesetState3 mod name nm ts p s0).get (.m mod) (keyOf name) = some none := by
+    unfold typesetState3
+    rw [get_put, if_neg (by intro h; cases h),
+      defineMembers3_get_other mod nm (.m mod) (keyOf name) ts 0 _ (fun t _ h => hne' t h.symm), get_addRead, get_put,
+      if_pos rfl]
+  obtain ⟨mods, tree, via, gi, fl⟩ := cfg
+  simp only at hv
+  subst hv
+  simp only at hb
+  simp only [instantiate, bind, pure, getSt, hgetm, setEntry, instantiator, modifySt, hb, hkey, ne_eq,
+    not_true_eq_false, if_false, addTypes, if_true]
+  rw [show resolveTS (k+6) _ nm ts 0 ((s0.put (.m mod) (keyOf name) none).addRead p) = _ from hres]
+  simp only [hdkn]
+  rw [show ((defineMembers3 mod nm ts 0 s1).put .d (keyOf name) (some ⟨.typeset, nm⟩)) = typesetState3 mod name nm ts p s0
+    from rfl, hmkn]
+
 /-- the lookup of a type set `Mod::…` through the dependency loader -/
 theorem typeset_dep (cfg : Cfg) (mod : String) (hv : cfg.via = .d) (hflat : cfg.flat = false)
     (hmods : cfg.mods.contains mod = true) (hmne : mod ≠ "")
@@ -215,10 +282,8 @@ theorem typeset_dep (cfg : Cfg) (mod : String) (hv : cfg.via = .d) (hflat : cfg.
     · simp only [hvv] at hp'; cases hp'
   have hhead : (keyOf nm).head? = some mod := by rw [hkey, ← hps']; exact hh'
   have hroute : Routed (.m mod) name := Or.inl ⟨hqual, Or.inr ⟨ps', hp', hh'⟩⟩
-  have hgm : ∀ k0 k1 : Key, (Lid.g, k0) ≠ (Lid.m mod, k1) := by intro _ _ h; cases h
   have hmg : ∀ k0 k1 : Key, (Lid.m mod, k0) ≠ (Lid.g, k1) := by intro _ _ h; cases h
   have hdg : ∀ k0 k1 : Key, (Lid.d, k0) ≠ (Lid.g, k1) := by intro _ _ h; cases h
-  have hdm : ∀ k0 k1 : Key, (Lid.d, k0) ≠ (Lid.m mod, k1) := by intro _ _ h; cases h
   have hlen : nm.length = name.length := by rw [← keyOf_length nm, ← keyOf_length name, hkey]
   have hfg := find_miss cfg .g s name hne hqg hig (k+10) (by omega)
   have hgfresh := hqg.fresh
@@ -226,68 +291,16 @@ theorem typeset_dep (cfg : Cfg) (mod : String) (hv : cfg.via = .d) (hflat : cfg.
     intro t h2
     rw [← hkey] at h2
     exact keyOf_ne_of_length (by simp) h2
-  -- the state in which the module loader instantiates
-  let s0 := s.put .g (keyOf name) none
-  let s1 := (s0.put (.m mod) (keyOf name) none).addRead p
-  have hig0 : MemInv .g nm s1 s1 ts := by
-    refine ⟨?_, fun _ h => h, ?_⟩
-    · show ((s0.put (.m mod) _ none).addRead p).get .g (keyOf nm) = _
-      rw [hkey, get_addRead, get_put, if_neg (hgm _ _)]
-      show (s.put .g _ none).get .g _ = _
-      rw [get_put, if_pos rfl]
-    · intro t ht
-      show ((s0.put (.m mod) _ none).addRead p).get .g _ = none
-      rw [get_addRead, get_put, if_neg (hgm _ _)]
-      show (s.put .g _ none).get .g _ = _
-      rw [get_put, if_neg (by intro h; injection h with _ h2; exact hne' t h2)]
-      exact hfreshg t ht
-  have him0 : MemInv (.m mod) nm s1 s1 ts := by
-    refine ⟨?_, fun _ h => h, ?_⟩
-    · show ((s0.put (.m mod) _ none).addRead p).get (.m mod) (keyOf nm) = _
-      rw [hkey, get_addRead, get_put, if_pos rfl]
-    · intro t ht
-      show ((s0.put (.m mod) _ none).addRead p).get (.m mod) _ = none
-      rw [get_addRead, get_put, if_neg (by intro h; injection h with _ h2; exact hne' t h2)]
-      show (s.put .g _ none).get (.m mod) _ = _
-      rw [get_put, if_neg (hmg _ _)]
-      exact hfreshm t ht
-  have hdf0 : ∀ t ∈ ts, s1.get .d (keyOf (nm ++ [t])) = none := by
-    intro t ht
-    show ((s0.put (.m mod) _ none).addRead p).get .d _ = none
-    rw [get_addRead, get_put, if_neg (hdm _ _)]
-    show (s.put .g _ none).get .d _ = _
-    rw [get_put, if_neg (hdg _ _)]
-    exact hfreshd t ht
-  have hres := resolveTS_dep cfg mod hv hflat hmods hmne nm hhead s1 ts 0 s1 k hk hhg hhm hig0 him0 hdf0
-  have hdkn : (defineMembers3 mod nm ts 0 s1).get .d (keyOf name) = none := by
-    rw [defineMembers3_get_other mod nm .d (keyOf name) ts 0 s1 (fun t _ h => hne' t h.symm)]
-    show ((s0.put (.m mod) _ none).addRead p).get .d _ = none
-    rw [get_addRead, get_put, if_neg (hdm _ _)]
-    show (s.put .g _ none).get .d _ = _
-    rw [get_put, if_neg (hdg _ _)]
-    exact hd
-  have hmkn : (typesetState3 mod name nm ts p s0).get (.m mod) (keyOf name) = some none := by
-    unfold typesetState3
-    rw [get_put, if_neg (by intro h; cases h),
-      defineMembers3_get_other mod nm (.m mod) (keyOf name) ts 0 _ (fun t _ h => hne' t h.symm), get_addRead, get_put,
-      if_pos rfl]
-  have hdkn' : (typesetState3 mod name nm ts p s0).get .d (keyOf name) = some (some ⟨.typeset, nm⟩) := by
+  have hinst := instantiate_typeset_dep cfg mod hv hflat hmods hmne name nm ts p ps (s.put .g (keyOf name) none) k hk hb hkey
+    hhead (by rw [get_put, if_neg (hmg _ _)]; exact hget) (by rw [get_put, if_pos rfl])
+    (by rw [get_put, if_neg (hdg _ _)]; exact hd) hhg hhm
+    (fun t ht => by rw [get_put, if_neg (by intro h; injection h with _ h2; exact hne' t h2)]; exact hfreshg t ht)
+    (fun t ht => by rw [get_put, if_neg (hmg _ _)]; exact hfreshm t ht)
+    (fun t ht => by rw [get_put, if_neg (hdg _ _)]; exact hfreshd t ht)
+  have hdkn' : (typesetState3 mod name nm ts p (s.put .g (keyOf name) none)).get .d (keyOf name) =
+      some (some ⟨.typeset, nm⟩) := by
     unfold typesetState3
     rw [get_put, if_pos rfl]
-  have hget0 : s0.get (.m mod) (keyOf name) = none := by
-    show (s.put .g _ none).get (.m mod) _ = _
-    rw [get_put, if_neg (hmg _ _)]; exact hget
-  have hinst : instantiate (k+9) cfg (.m mod) name (p :: ps) s0 = .ok (some none) (typesetState3 mod name nm ts p s0) := by
-    obtain ⟨mods, tree, via, gi, fl⟩ := cfg
-    simp only at hv
-    subst hv
-    simp only at hb
-    simp only [instantiate, bind, pure, getSt, hget0, setEntry, instantiator, modifySt, hb, hkey, ne_eq,
-      not_true_eq_false, if_false, addTypes, if_true]
-    rw [show resolveTS (k+6) _ nm ts 0 ((s0.put (.m mod) (keyOf name) none).addRead p) = _ from hres]
-    simp only [hdkn]
-    rw [show ((defineMembers3 mod nm ts 0 s1).put .d (keyOf name) (some ⟨.typeset, nm⟩)) = typesetState3 mod name nm ts p s0
-      from rfl, hmkn]
   have hmods' : cfg.mods.isEmpty = false := by
     cases hm : cfg.mods with
     | nil => rw [hm] at hmods; simp at hmods
@@ -304,7 +317,6 @@ theorem typeset_dep (cfg : Cfg) (mod : String) (hv : cfg.via = .d) (hflat : cfg.
   simp only [setEntry, hgfresh, get_put, hget, hmg, if_false, find_routed _ _ _ _ hroute, findTail, hi]
   rw [show instantiate (k+9) _ (.m mod) name (p :: ps) (s.put .g (keyOf name) none) = _ from hinst]
   simp only [hdkn', Option.getD]
-  rfl
 
 /-- a name the dependency loader holds a definition for is answered from its cache -/
 theorem dep_cached (cfg : Cfg) (hv : cfg.via = .d) (name : Name) (s : St) (d : Def) (n : Nat)
